@@ -180,6 +180,32 @@ def execute_large(case):
     return {"ok": not fails, "failures": fails, "outcome": "+".join(sorted(outcomes)), "nontrivial": True, "n": len(cuts) * len(case["rpcs"]), "hist": outcomes}
 
 
+def execute_after_intact(case):
+    """the intact product was opened earlier in the same process; then a file is cut short in place, optionally with its
+    modification time preserved (restore of a partial copy, coarse timestamps): the next open must still notice"""
+    tc, rpc = case["type"], case["rpc"]
+    spec, files = make_product(tc)
+    names = synth.file_names(spec)
+    target = {"img": names["img"][0], "led": names["led"], "vol": names["vol"]}[case["file"]]
+    full = files[target]
+    fails, outcomes = [], {}
+    with harness.Product(files, case["fs"]) as prod:
+        for cut in case["cuts"]:
+            prod.put(target, full)
+            t = prod.open(records_per_chunk=rpc, use_cache=False)
+            t[f"imagery/{harness.group_name(spec['images'][0]['pol'], spec['images'][0]['scan'])}/data"].values
+            prod.put(target, full[:cut], keep_mtime=case["keep_mtime"])
+            out, f = judge(prod, spec, rpc, False, None, f"{case['file']} cut at {cut}/{len(full)} after an intact open (mtime {'kept' if case['keep_mtime'] else 'new'}) rpc={rpc} {tc} on {case['fs']}")
+            if out == "returned-complete":
+                f = {"sig": {"kind": "cut-not-noticed-after-intact-open", "file": case["file"]}, "detail": f"{case['file']} cut at {cut}/{len(full)} after an intact open in the same process (mtime {'kept' if case['keep_mtime'] else 'new'}, {case['fs']}): open and full load succeeded"}
+            outcomes[out] = outcomes.get(out, 0) + 1
+            if f:
+                f["case"] = {**case, "fn": "execute_after_intact", "cuts": [cut]}
+                if core.jkey(f["sig"]) not in {core.jkey(x["sig"]) for x in fails}:
+                    fails.append(f)
+    return {"ok": not fails, "failures": fails, "outcome": "+".join(sorted(outcomes)), "nontrivial": True, "n": len(case["cuts"]), "hist": outcomes}
+
+
 def execute_missing(case):
     tc = case["type"]
     spec, files = make_product(tc)
@@ -280,6 +306,15 @@ def plan(tier):
                 for fs in ("mcfs", "local", "memory"):
                     for rpc in (1, 1024):
                         cases.append({"fn": "execute_missing", "type": tc, "missing": missing, "use_cache": use_cache, "fs": fs, "rpc": rpc})
+    for tc in ("IU2", "C*8"):
+        spec, files = make_product(tc)
+        names = synth.file_names(spec)
+        for which, key in (("img", names["img"][0]), ("led", names["led"]), ("vol", names["vol"])):
+            n = len(files[key])
+            cuts = sorted({0, 1, 720, n // 2, n - 1} | ({720 + k * (n - 720) // 4 for k in range(1, 4)} if which == "img" else set()))
+            for fs in ("local", "mcfs"):
+                for km in (True, False):
+                    cases.append({"fn": "execute_after_intact", "type": tc, "rpc": 2 if which == "img" else 1024, "file": which, "fs": fs, "keep_mtime": km, "cuts": [c for c in cuts if c < n]})
     for tc, L, P in (("IU2", 64, 150000), ("C*8", 40, 60000), ("IU2", 600, 60000)) if tier == "quick" else (("IU2", 64, 150000), ("C*8", 40, 60000), ("IU2", 600, 60000), ("C*8", 1100, 9000), ("IU2", 5000, 64)):
         for rpcs in ((None, 8), (64, 4096)):
             cases.append({"fn": "execute_large", "type": tc, "L": L, "P": P, "rpcs": list(rpcs)})
@@ -291,7 +326,7 @@ def run(res, tier, seed):
         "every truncation length 0..size of a 4x3 image x rpc{1,2,4,5,1024} x type through sar_image.open_image, and through"
         " open_alos2 at every length (thorough) or all record/field boundaries +-1 + every 16th byte (quick); leader and"
         " volume directory cut at every length (thorough) / every layout field boundary +-1 + stride (quick); every single"
-        " missing file x use_cache x 3 filesystems; images of 19 / 19 / 72 MB cut at the boundaries +-1 of the first, middle and last records, inside their" " prefixes and pixel data and at every power of two 2^20..2^27 +-1, x rpc {default, 8, 64, 4096}. A case is a batch of cuts of one file; all are non-trivial (each cut is"
+        " missing file x use_cache x 3 filesystems; every file cut in place after an intact open in the same process (modification time kept / new; local and mcfs); images of 19 / 19 / 72 MB cut at the boundaries +-1 of the first, middle and last records, inside their" " prefixes and pixel data and at every power of two 2^20..2^27 +-1, x rpc {default, 8, 64, 4096}. A case is a batch of cuts of one file; all are non-trivial (each cut is"
         " a distinct byte length and is executed on the real code)."
     )
     res.assumptions = ["a truncated file is modelled as a shorter file (reads return fewer bytes), as on local and object stores", "promptness = number of filesystem events <= intact open (deterministic); wall time is not an oracle"]
